@@ -48,7 +48,7 @@ out = os.path.join(ROOT, 'seeded', name); os.makedirs(out, exist_ok=True)
 for f in ('patch.diff', 'demo.cpp', 'meta.txt'):
     if os.path.exists(os.path.join(src, f)): shutil.copy(os.path.join(src, f), out)
 meta = dict(name=name, breaks_property=pid, demo_compile_cmd=cc, tests_pass_with_change=tests_pass, demo_on_clean_tree=clean, demo_with_change=patched,
-            confirmed=bool(tests_pass and clean[0] == 0 and patched[0] not in (0, None) and not str(patched[0]).startswith('compile')),
+            confirmed=bool(tests_pass and clean[0] == 0 and patched[0] not in (0, None) and (pid == 'C19' or not str(patched[0]).startswith('compile'))),  # C19: 'does not compile for a conforming scalar type' IS the demonstrated failure
             checks={tier: checks}, ran='tools/seedcheck.py %s %s (worktree %s, repository tests rebuilt with the change; checks run with VERIF_REPO=<worktree>)' % (src, ' '.join(props), wt))
 mp = os.path.join(out, 'meta.json')
 if os.path.exists(mp):
